@@ -44,6 +44,7 @@ type c03Case struct {
 	Cell    string `json:"cell"`
 	Mode    string `json:"mode"`
 	Opt     int    `json:"opt"`
+	GC      bool   `json:"gc"`
 	Seed    int64  `json:"seed"`
 	Program string `json:"program"`
 }
@@ -52,6 +53,8 @@ type c03Case struct {
 type cellRec struct {
 	ID       string    `json:"id"`
 	Opt      int       `json:"opt"`
+	GC       bool      `json:"gc"`
+	Runs     int       `json:"runs,omitempty"` // named family: how many executions of the site printed a line
 	Err      string    `json:"err,omitempty"`
 	Sig      string    `json:"sig,omitempty"` // outcome signature after the set-up line (agreement groups only)
 	RT       string    `json:"rt,omitempty"`  // result type of a mixed-kind expression
@@ -67,24 +70,91 @@ type workerOut struct {
 	Break int64     `json:"breaks"`
 }
 
-func c03Levels() []int {
-	if vh.Tier() == "thorough" {
-		return []int{0, 1, 2, 3}
+// c03Configs lists the configurations a cell runs in. The classic families (literal
+// and variable operands) do not depend on the global-reference cache: they run with
+// it off at every optimizer level of the tier. The named-constant family runs with the
+// cache on (the default) and off, at optimizer 0 and 3 (quick) or 0-3 (thorough);
+// level 3 turns cache and constant folding on by definition, so there is no
+// "off" variant of it, and the fold-disabled variant does not exist at level 3.
+func c03Configs(c *cell) []runCfg {
+	thorough := vh.Tier() == "thorough"
+
+	if c.fam == "named" {
+		cfgs := []runCfg{{0, true}, {0, false}}
+		if thorough {
+			cfgs = append(cfgs, runCfg{1, true}, runCfg{1, false}, runCfg{2, true}, runCfg{2, false})
+		}
+
+		if c.cfold {
+			cfgs = append(cfgs, runCfg{3, true})
+		}
+
+		return cfgs
 	}
 
-	return []int{0, 2}
-}
-
-func c03Sampled(c *cell, level int) bool {
-	if level == 0 || vh.Tier() == "thorough" {
-		return true
+	if thorough {
+		return []runCfg{{0, false}, {1, false}, {2, false}, {3, false}}
 	}
 
-	return c.fam == "stmt1" || hash32(c.group)%10 == 0
+	if c.fam == "stmt1" || hash32(c.group)%10 == 0 {
+		return []runCfg{{0, false}, {2, false}}
+	}
+
+	return []runCfg{{0, false}}
 }
 
-func recOf(c *cell, opt int, o outcome) cellRec {
-	rec := cellRec{ID: c.id, Opt: opt, Err: o.err}
+// isBase: the configuration against which "fails only under configuration X" is judged.
+func isBase(c *cell, rc runCfg) bool {
+	return rc.Opt == 0 && rc.GC == (c.fam == "named")
+}
+
+func cfgTag(c *cell, rc runCfg) string {
+	t := fmt.Sprintf("o%d", rc.Opt)
+	if c.fam == "named" && !rc.GC && rc.Opt < 3 {
+		t += "-nocache"
+	}
+
+	return t
+}
+
+func allConfigs(table []*cell) []runCfg {
+	seen := map[runCfg]bool{}
+
+	var out []runCfg
+
+	for _, c := range table {
+		for _, rc := range c03Configs(c) {
+			if !seen[rc] {
+				seen[rc] = true
+				out = append(out, rc)
+			}
+		}
+	}
+
+	sort.Slice(out, func(i, j int) bool {
+		if out[i].Opt != out[j].Opt {
+			return out[i].Opt < out[j].Opt
+		}
+
+		return !out[i].GC && out[j].GC
+	})
+
+	return out
+}
+
+func runsIn(c *cell, rc runCfg) bool {
+	for _, x := range c03Configs(c) {
+		if x == rc {
+			return true
+		}
+	}
+
+	return false
+}
+
+func recOf(c *cell, rc runCfg, o outcome) cellRec {
+	opt := rc.Opt
+	rec := cellRec{ID: c.id, Opt: rc.Opt, GC: rc.GC, Err: o.err}
 	if o.panic != "" && rec.Err == "" {
 		rec.Err = "PANIC " + firstLine(o.panic)
 	}
@@ -102,6 +172,10 @@ func recOf(c *cell, opt int, o outcome) cellRec {
 		if o.err != "" || o.panic != "" {
 			rec.Sig += "|ERR"
 		}
+	}
+
+	if c.fam == "named" && len(o.lines) > 1 {
+		rec.Runs = len(o.lines) - 1
 	}
 
 	if c.fam == "mixed" && c.mode != "strict" && len(o.lines) == 3 {
@@ -122,18 +196,18 @@ func c03RunShard(table []*cell, k, n int) workerOut {
 		st  runStats
 	)
 
-	for _, level := range c03Levels() {
+	for _, rc := range allConfigs(table) {
 		for _, m := range modes {
 			var sel []*cell
 
 			for _, c := range table {
-				if c.mode == m && int(hash32(c.id)%uint32(n)) == k && c03Sampled(c, level) {
+				if c.mode == m && int(hash32(c.id)%uint32(n)) == k && runsIn(c, rc) {
 					sel = append(sel, c)
 				}
 			}
 
-			lv := level
-			runCells(sel, lv, 40, &st, func(c *cell, o outcome) { out.Recs = append(out.Recs, recOf(c, lv, o)) })
+			cfg := rc
+			runCells(sel, cfg, 40, &st, func(c *cell, o outcome) { out.Recs = append(out.Recs, recOf(c, cfg, o)) })
 		}
 	}
 
@@ -229,7 +303,7 @@ func c03Workers(n int) ([]workerOut, error) {
 type witness struct {
 	f    finding
 	c    *cell
-	opt  int
+	rc   runCfg
 	prog string
 }
 
@@ -266,8 +340,8 @@ func TestC03(t *testing.T) {
 
 	if replay == nil {
 		n := runtime.NumCPU() / 2
-		if n > 6 {
-			n = 6
+		if n > 8 {
+			n = 8
 		}
 
 		if n < 1 {
@@ -312,9 +386,11 @@ func TestC03(t *testing.T) {
 				// the cell itself, the same cell in the other type modes (the key says whether all three fail) and,
 				// for an agreement finding, the other statement forms of its group
 				if c == target || c.id == stem+"/"+c.mode || (target.agree != "" && c.agree == target.agree) {
-					recs = append(recs, recOf(c, 0, runSolo(c, 0, &st)))
-					if replay.Opt > 0 {
-						recs = append(recs, recOf(c, replay.Opt, runSolo(c, replay.Opt, &st)))
+					base := runCfg{0, c.fam == "named"}
+					recs = append(recs, recOf(c, base, runSolo(c, base, &st)))
+
+					if rc := (runCfg{replay.Opt, replay.GC}); rc != base {
+						recs = append(recs, recOf(c, rc, runSolo(c, rc, &st)))
 					}
 				}
 			}
@@ -344,6 +420,10 @@ func TestC03(t *testing.T) {
 			return recs[i].Opt < recs[j].Opt
 		}
 
+		if recs[i].GC != recs[j].GC {
+			return !recs[i].GC
+		}
+
 		return recs[i].ID < recs[j].ID
 	})
 
@@ -353,6 +433,7 @@ func TestC03(t *testing.T) {
 		agreeSigs  = map[string]map[string][]string{} // level/agree-tag -> signature -> cell ids
 		agreeBad   = map[string]bool{}
 		agreeCells = map[string]*cell{}
+		agreeCfg   = map[string]runCfg{}
 		promo      = map[string]string{}
 	)
 
@@ -362,9 +443,17 @@ func TestC03(t *testing.T) {
 			t.Fatalf("harness: worker reported unknown cell %s", rec.ID)
 		}
 
-		r.Eval(fmt.Sprintf("%s@o%d", c.id, rec.Opt), true)
+		rc := runCfg{rec.Opt, rec.GC}
+
+		r.Eval(fmt.Sprintf("%s@%s", c.id, cfgTag(c, rc)), true)
 		r.Count("cells."+c.fam, 1)
 		r.Count(fmt.Sprintf("cells.o%d", rec.Opt), 1)
+
+		if c.fam == "named" {
+			r.Count("named.config."+cfgTag(c, rc), 1)
+			r.Count("named.variant."+strings.Split(c.group, ":")[2], 1)
+			r.Count("named.site-executions", int64(rec.Runs))
+		}
 		r.Count("cells.mode."+c.mode, 1)
 
 		if rec.Err != "" {
@@ -375,15 +464,16 @@ func TestC03(t *testing.T) {
 		}
 
 		for _, f := range rec.Findings {
-			wits = append(wits, witness{f: f, c: c, opt: rec.Opt, prog: rec.Program})
+			wits = append(wits, witness{f: f, c: c, rc: rc, prog: rec.Program})
 
-			if rec.Opt == 0 {
+			if isBase(c, rc) {
 				failedAt0[gmKey{f.Base, c.mode}] = true
 			}
 		}
 
 		if c.agree != "" {
 			tag := fmt.Sprintf("o%d/%s", rec.Opt, c.agree)
+			agreeCfg[tag] = rc
 			if agreeSigs[tag] == nil {
 				agreeSigs[tag] = map[string][]string{}
 			}
@@ -396,7 +486,7 @@ func TestC03(t *testing.T) {
 			}
 		}
 
-		if rec.RT != "" && rec.Opt == 0 {
+		if rec.RT != "" && rec.Opt == 0 && !rec.GC {
 			parts := strings.Split(c.group, ":")
 			promo[parts[2]+"+"+parts[3]] = rec.RT
 		}
@@ -423,10 +513,7 @@ func TestC03(t *testing.T) {
 		}
 
 		c := agreeCells[tag]
-
-		var opt int
-
-		fmt.Sscanf(tag, "o%d/", &opt)
+		arc := agreeCfg[tag]
 
 		base := strings.SplitN(strings.SplitN(tag, "/", 2)[1], "/", 2)[0]
 		desc := []string{}
@@ -436,9 +523,9 @@ func TestC03(t *testing.T) {
 		}
 
 		sort.Strings(desc)
-		wits = append(wits, witness{f: finding{Base: base, Desc: "statement forms that must agree differ", Expected: "equal outcome", Observed: strings.Join(desc, " ; ")}, c: c, opt: opt})
+		wits = append(wits, witness{f: finding{Base: base, Desc: "statement forms that must agree differ", Expected: "equal outcome", Observed: strings.Join(desc, " ; ")}, c: c, rc: arc})
 
-		if opt == 0 {
+		if isBase(c, arc) {
 			failedAt0[gmKey{base, c.mode}] = true
 		}
 	}
@@ -448,15 +535,15 @@ func TestC03(t *testing.T) {
 
 	modesOf := map[ko]map[string]bool{}
 	tagOf := func(w witness) (string, bool) {
-		if w.opt == 0 {
+		if isBase(w.c, w.rc) {
 			return "", true
 		}
 
 		if failedAt0[gmKey{w.f.Base, w.c.mode}] {
-			return "", false // same defect as at level 0: already keyed there
+			return "", false // same defect as in the base configuration: already keyed there
 		}
 
-		return fmt.Sprintf(":o%d", w.opt), true
+		return ":" + cfgTag(w.c, w.rc), true
 	}
 
 	for _, w := range wits {
@@ -487,11 +574,11 @@ func TestC03(t *testing.T) {
 
 		prog := w.prog
 		if prog == "" {
-			prog = program([]*cell{w.c}, w.opt)
+			prog = program([]*cell{w.c}, w.rc.Opt)
 		}
 
-		r.Violate(vh.Violation{Key: key, Desc: fmt.Sprintf("[%s o%d] %s", w.c.mode, w.opt, w.f.Desc),
-			Case:     c03Case{Cell: w.c.id, Mode: w.c.mode, Opt: w.opt, Seed: seed, Program: prog},
+		r.Violate(vh.Violation{Key: key, Desc: fmt.Sprintf("[%s %s] %s", w.c.mode, cfgTag(w.c, w.rc), w.f.Desc),
+			Case:     c03Case{Cell: w.c.id, Mode: w.c.mode, Opt: w.rc.Opt, GC: w.rc.GC, Seed: seed, Program: prog},
 			Expected: w.f.Expected, Observed: w.f.Observed})
 	}
 
@@ -548,10 +635,15 @@ func crossCheckCLI(r *vh.Report, table []*cell) {
 			continue
 		}
 
+		if c.fam == "named" && !c.cfold {
+			continue // the CLI has no flag for constant folding; its default is on
+		}
+
 		opt := []int{0, 2}[n%2]
 		n++
 
-		in := runSolo(c, opt, &st)
+		// the CLI's defaults: global cache on; the in-process runs of the classic families use it off, which is part of what is cross-checked
+		in := runSolo(c, runCfg{opt, c.fam == "named"}, &st)
 		file := filepath.Join(dir, fmt.Sprintf("cell%d.ego", n))
 		_ = os.WriteFile(file, []byte(in.program), 0o644)
 
